@@ -801,4 +801,536 @@ theorem trimG_word_run_word (u g v : List α) (hu1 : StartsNonWs ws u) (hu2 : En
 
 end Shape
 end Trim
+/-! ### facts about the whitespace table -/
+theorem pyWs_space : pyWs ' ' = true := by decide
+theorem isNl_space : isNl ' ' = false := by decide
+theorem isNl_ws (c : Char) (h : isNl c = true) : pyWs c = true := by
+  have : c = '\n' := by simpa [isNl] using h
+  subst this; decide
+
+/-! ### the message expansion respects whitespace -/
+
+/-- `Sym.msg`, made total for names with whitespace (which the theorems exclude) -/
+def Sym.msgSafe : Sym → Text
+  | .ch c => if c = '%' then ['%', '%'] else [c]
+  | .ref n => if n.all (fun c => !pyWs c) then directive n else ['x']
+
+theorem msgSafe_respects : Respects Sym.ws Sym.nl (Sym.ch ' ') pyWs isNl ' ' Sym.msgSafe where
+  onWs := by
+    intro a ha
+    cases a with
+    | ref n => simp [Sym.ws] at ha
+    | ch c =>
+      have hc : c ≠ '%' := by
+        intro e; subst e; simp [Sym.ws] at ha; revert ha; decide
+      exact ⟨c, by simp [Sym.msgSafe, hc], by simpa [Sym.ws] using ha, by simp [Sym.nl]⟩
+  onWord := by
+    intro a ha
+    cases a with
+    | ch c =>
+      have ha : pyWs c = false := by simpa [Sym.ws] using ha
+      by_cases hc : c = '%'
+      · subst hc; simp [Sym.msgSafe]; decide
+      · simp [Sym.msgSafe, hc, ha]
+    | ref n =>
+      by_cases hn : n.all (fun c => !pyWs c) = true
+      · simp only [Sym.msgSafe, hn, if_true, directive]
+        refine ⟨by simp, ?_⟩
+        intro c hc
+        simp only [List.mem_cons, List.mem_append, List.not_mem_nil, or_false] at hc
+        rcases hc with rfl | rfl | hc | rfl | rfl
+        · decide
+        · decide
+        · have := List.all_eq_true.mp hn c hc; simpa using this
+        · decide
+        · decide
+      · simp only [Sym.msgSafe, hn]
+        refine ⟨by simp, ?_⟩
+        intro c hc; simp at hc; subst hc; decide
+  onSp := by simp [Sym.msgSafe]
+
+theorem msgSafe_eq (ss : List Sym) (h : ∀ n ∈ refsS ss, NameOk n) : ss.flatMap Sym.msgSafe = msgS ss := by
+  induction ss with
+  | nil => rfl
+  | cons s r ih =>
+    have hr : ∀ n ∈ refsS r, NameOk n := fun n hn => h n (by simp [refsS] at hn ⊢; exact Or.inr hn)
+    simp only [List.flatMap_cons, msgS, ih hr]
+    congr 1
+    cases s with
+    | ch c => rfl
+    | ref n =>
+      have hn := (h n (by simp [refsS, Sym.refs])).2.2
+      have : n.all (fun c => !pyWs c) = true := by
+        rw [List.all_eq_true]; intro c hc; simp [hn c hc]
+      simp [Sym.msgSafe, Sym.msg, this]
+
+theorem refsS_mem_of_mem {ss : List Sym} {n : Text} : n ∈ refsS ss ↔ Sym.ref n ∈ ss := by
+  induction ss with
+  | nil => simp [refsS]
+  | cons s r ih =>
+    cases s with
+    | ch c => simp [refsS, Sym.refs] at ih ⊢; exact ih
+    | ref m => simp [refsS, Sym.refs] at ih ⊢; rw [ih]
+
+def trimS (ss : List Sym) : List Sym := trimG Sym.ws Sym.nl (Sym.ch ' ') ss
+
+theorem refsS_trimS {ss : List Sym} {n : Text} (h : n ∈ refsS (trimS ss)) : n ∈ refsS ss := by
+  rw [refsS_mem_of_mem] at h ⊢
+  rcases mem_trimG Sym.ws Sym.nl (Sym.ch ' ') h with h | h
+  · exact h
+  · simp at h
+
+/-- **trimming the gettext message = trimming the source symbols** -/
+theorem trimWhitespace_msgS (ss : List Sym) (h : ∀ n ∈ refsS ss, NameOk n) :
+    trimWhitespace (msgS ss) = msgS (trimS ss) := by
+  have h' : ∀ n ∈ refsS (trimS ss), NameOk n := fun n hn => h n (refsS_trimS hn)
+  rw [← msgSafe_eq ss h, ← msgSafe_eq _ h']
+  exact trimG_flatMap Sym.ws Sym.nl (Sym.ch ' ') pyWs isNl ' ' Sym.msgSafe msgSafe_respects ss
+
+/-! ### messages without variables -/
+
+theorem msgS_no_refs (σ : Text → Text) (ss : List Sym) (h : refsS ss = []) : msgS ss = escPct (fill σ ss) := by
+  induction ss with
+  | nil => rfl
+  | cons s r ih =>
+    cases s with
+    | ref n => simp [refsS, Sym.refs] at h
+    | ch c =>
+      have hr : refsS r = [] := by simpa [refsS, Sym.refs] using h
+      have := ih hr
+      simp only [msgS, fill, List.flatMap_cons, escPct, List.flatMap_append, Sym.msg] at this ⊢
+      rw [this]; simp
+
+theorem undouble_msgS_no_refs (σ : Text → Text) (ss : List Sym) (h : refsS ss = []) : undouble (msgS ss) = fill σ ss := by
+  rw [msgS_no_refs σ ss h, undouble_escPct]
+
+theorem fill_no_refs (σ τ : Text → Text) (ss : List Sym) (h : refsS ss = []) : fill σ ss = fill τ ss := by
+  induction ss with
+  | nil => rfl
+  | cons s r ih =>
+    cases s with
+    | ref n => simp [refsS, Sym.refs] at h
+    | ch c =>
+      have hr : refsS r = [] := by simpa [refsS, Sym.refs] using h
+      simp only [fill, List.flatMap_cons] at ih ⊢
+      rw [ih hr]
+
+/-! ### mappings -/
+
+theorem lookupIn_append (a b : List (Text × Text)) (k : Text) :
+    lookupIn (a ++ b) k = match lookupIn a k with | some v => some v | none => lookupIn b k := by
+  unfold lookupIn
+  rw [List.find?_append]
+  cases List.find? (fun e => e.1 == k) a <;> simp
+
+theorem lookupIn_cons (a v : Text) (m : List (Text × Text)) (k : Text) :
+    lookupIn ((a, v) :: m) k = if a = k then some v else lookupIn m k := by
+  unfold lookupIn
+  rw [List.find?_cons]
+  by_cases e : a = k
+  · simp [e]
+  · have : (a == k) = false := by simpa using e
+    simp [this, e]
+
+theorem lookupIn_map_mem (ks : List Text) (g : Text → Text) (k : Text) (h : k ∈ ks) :
+    lookupIn (ks.map fun k => (k, g k)) k = some (g k) := by
+  induction ks with
+  | nil => simp at h
+  | cons a ks ih =>
+    rw [List.map_cons, lookupIn_cons]
+    by_cases e : a = k
+    · subst e; simp
+    · have hk : k ∈ ks := by
+        rcases List.mem_cons.mp h with rfl | h
+        · exact absurd rfl e
+        · exact h
+      simp [e, ih hk]
+
+theorem lookupIn_map_not_mem (ks : List Text) (g : Text → Text) (k : Text) (h : k ∉ ks) :
+    lookupIn (ks.map fun k => (k, g k)) k = none := by
+  induction ks with
+  | nil => rfl
+  | cons a ks ih =>
+    simp only [List.mem_cons, not_or] at h
+    rw [List.map_cons, lookupIn_cons]
+    have e : ¬ a = k := fun e => h.1 e.symm
+    simp [e, ih h.2]
+
+/-! ### the header loop -/
+
+def orElse' {α} : Option α → Option α → Option α
+  | some a, _ => some a
+  | none, b => b
+
+theorem headerLoop_spec (items : List (Text × Bool)) (h0 h : Header) (hok : headerLoop h0 items = .ok h) :
+    h.vars = h0.vars ++ headerVars items h0.trimmed.isSome ∧
+    h.trimmed = orElse' h0.trimmed (flag items) ∧
+    h.pluralKey = orElse' h0.pluralKey (headerVars items h0.trimmed.isSome).head? ∧
+    ((h0.numCalledNum = true → h0.pluralKey = some kwNum) → (h.numCalledNum = true → h.pluralKey = some kwNum)) := by
+  induction items generalizing h0 with
+  | nil =>
+    simp only [headerLoop, Except.ok.injEq] at hok; subst hok
+    cases h0.pluralKey <;> cases h0.trimmed <;> simp [headerVars, flag, orElse']
+  | cons it r ih =>
+    obtain ⟨n, assigned⟩ := it
+    simp only [headerLoop] at hok
+    split at hok
+    · rename_i h1 hstep
+      have := ih h1 hok
+      simp only [headerStep] at hstep
+      split at hstep
+      · simp at hstep
+      · split at hstep
+        · -- the trimmed / notrimmed flag
+          rename_i hdup hflag
+          simp only [Except.ok.injEq] at hstep; subst hstep
+          simp only [Bool.and_eq_true, Bool.not_eq_eq_eq_not, Bool.not_true, Option.isNone_iff_eq_none, Bool.or_eq_true,
+            beq_iff_eq] at hflag
+          obtain ⟨⟨ha, ht⟩, hn⟩ := hflag
+          simp only [ht, Option.isSome_none, Option.isSome_some] at this ⊢
+          have hcond : (!false && !assigned && (n == kwTrimmed || n == kwNotrimmed)) = true := by
+            simp [ha]; rcases hn with e | e <;> simp [e]
+          have hcond2 : (!assigned && (n == kwTrimmed || n == kwNotrimmed)) = true := by simpa using hcond
+          simp only [headerVars, flag, hcond, hcond2, if_true]
+          refine ⟨this.1, ?_, this.2.2.1, this.2.2.2⟩
+          rw [this.2.1]; simp [orElse']
+        · -- a variable
+          rename_i hdup hflag
+          simp only [Except.ok.injEq] at hstep; subst hstep
+          simp only at this
+          have hcond : (!h0.trimmed.isSome && !assigned && (n == kwTrimmed || n == kwNotrimmed)) = false := by
+            cases ht : h0.trimmed <;> simp [ht] at hflag ⊢
+            exact hflag
+          simp only [headerVars, hcond, Bool.false_eq_true, if_false]
+          refine ⟨by rw [this.1]; simp, ?_, ?_, ?_⟩
+          · rw [this.2.1]
+            cases ht : h0.trimmed with
+            | some t => simp [orElse']
+            | none =>
+              simp only [ht, Option.isSome_none, Bool.not_false, Bool.true_and] at hcond
+              simp [orElse', flag, hcond]
+          · rw [this.2.2.1]
+            cases hp : h0.pluralKey <;> simp [orElse']
+          · intro hinv
+            apply this.2.2.2
+            cases hp : h0.pluralKey with
+            | none => simp [kwNum]
+            | some k => simp only [hp] at hinv ⊢; intro hh; exact hinv hh
+    · simp at hok
+
+theorem headerLoop_init (items : List (Text × Bool)) (h : Header) (hok : headerLoop {} items = .ok h) :
+    h.vars = headerVars items false ∧ h.trimmed = flag items ∧ h.pluralKey = h.vars.head? ∧
+    (h.numCalledNum = true → h.pluralKey = some kwNum) := by
+  obtain ⟨h1, h2, h3, h4⟩ := headerLoop_spec items {} h hok
+  simp only [List.nil_append, Option.isSome_none] at h1
+  refine ⟨h1, by simpa [orElse'] using h2, ?_, h4 (by simp)⟩
+  rw [h3, h1]; simp [orElse']
+
+/-! ### `parse` and `_make_node` -/
+
+def keysOf (vars referenced : List Text) : List Text :=
+  vars ++ (dedup referenced).filter (fun n => !(vars.contains n))
+
+theorem mem_dedup {l : List Text} {n : Text} : n ∈ dedup l ↔ n ∈ l := by
+  induction l with
+  | nil => simp [dedup]
+  | cons a l ih =>
+    simp only [dedup, List.mem_cons, List.mem_filter, ih]
+    constructor
+    · rintro (h | ⟨h, _⟩)
+      · exact Or.inl h
+      · exact Or.inr h
+    · intro h
+      by_cases e : n = a
+      · exact Or.inl e
+      · rcases h with h | h
+        · exact absurd h e
+        · exact Or.inr ⟨h, by simpa using e⟩
+
+theorem mem_keysOf {vars referenced : List Text} {n : Text} (h : n ∈ referenced) : n ∈ keysOf vars referenced := by
+  unfold keysOf
+  by_cases hv : n ∈ vars
+  · exact List.mem_append_left _ hv
+  · apply List.mem_append_right
+    rw [List.mem_filter]
+    exact ⟨mem_dedup.mpr h, by simpa using hv⟩
+
+theorem keysOf_nil (vars : List Text) : keysOf vars [] = vars := by simp [keysOf, dedup]
+
+/-- the new-style mapping -/
+def newMap (ae : Bool) (σ : Text → Val) (keys : List Text) (ctx pk : Option Text) (ncn : Bool) : List (Text × Text) :=
+  (keys.filter (fun k => !(ncn && k == kwNum))).map (fun k => (k, (σ k).show ae)) ++
+    (match ctx with | some c => [(kwContext, (Val.str c false).show ae)] | none => []) ++
+    (match pk with | some k => [(kwNum, (σ k).show ae)] | none => [])
+
+theorem lookupIn_newMap (ae : Bool) (σ : Text → Val) (keys : List Text) (ctx pk : Option Text) (ncn : Bool)
+    (hncn : ncn = true → pk = some kwNum) (n : Text) (hn : n ∈ keys) :
+    lookupIn (newMap ae σ keys ctx pk ncn) n = some ((σ n).show ae) := by
+  unfold newMap
+  rw [List.append_assoc, lookupIn_append]
+  by_cases hf : n ∈ keys.filter (fun k => !(ncn && k == kwNum))
+  · rw [lookupIn_map_mem _ (fun k => (σ k).show ae) n hf]
+  · rw [lookupIn_map_not_mem _ (fun k => (σ k).show ae) n hf]
+    simp only [List.mem_filter, hn, true_and, Bool.not_eq_eq_eq_not, Bool.not_true, Bool.and_eq_false_imp,
+      beq_eq_false_iff_ne, ne_eq, Classical.not_imp, Decidable.not_not] at hf
+    obtain ⟨h1, h2⟩ := hf
+    subst h2
+    rw [hncn h1]
+    simp only
+    rw [lookupIn_append]
+    cases ctx with
+    | none => simp [lookupIn_cons, lookupIn]
+    | some c =>
+      have : ¬ kwContext = kwNum := by decide
+      simp [lookupIn_cons, this]
+      rfl
+
+/-- closed form of rendering what `_make_node` built, under the identity translation -/
+theorem renderNode_makeNode (ns ae : Bool) (σ : Text → Val) (S : Text) (P : Option Text) (ctx : Option Text)
+    (keys : List Text) (pk : Option Text) (vr ncn : Bool) :
+    renderNode ae identityTr σ (makeNode ns S P ctx keys pk vr ncn) =
+      (let S' := if (!vr && !ns) = true then undouble S else S
+       let P' := if (!vr && !ns) = true then P.map undouble else P
+       let X := match pk with | none => S' | some k => if (σ k).isOne then S' else P'.getD []
+       if ns = true then pyPercentFormat (lookupIn (newMap ae σ keys ctx pk ncn)) X
+       else if keys.isEmpty = true then .ok X
+       else pyPercentFormat (lookupIn (keys.map fun k => (k, (σ k).show ae))) X) := by
+  cases ns <;> cases ctx <;> cases pk <;> cases hk : keys.isEmpty <;>
+    simp [renderNode, makeNode, Node.mapping, Node.translated, identityTr, newMap, hk]
+
+
+/-- what `parse` hands to `_make_node`, in terms of the Spec's reading of the header -/
+theorem parseTrans_view (cfg : Cfg) (b : Block) (node : Node) (hok : parseTrans cfg b = .ok node) :
+    let vars := headerVars b.header false
+    let T := fun (t : Text) => if (flag b.header).getD cfg.policyTrimmed = true then trimWhitespace t else t
+    let s := parseBlock b.singular
+    (b.plural = none ∧ node = makeNode cfg.newstyle (T s.2) none b.ctx (keysOf vars s.1) none (!s.1.isEmpty) false) ∨
+    (∃ pn pb k ncn, b.plural = some (pn, pb) ∧ countName b = some k ∧ (ncn = true → k = kwNum) ∧
+      node = makeNode cfg.newstyle (T s.2) (some (T (parseBlock pb).2)) b.ctx (keysOf vars (s.1 ++ (parseBlock pb).1))
+        (some k) (!(s.1 ++ (parseBlock pb).1).isEmpty) ncn) := by
+  intro vars T s
+  unfold parseTrans at hok
+  split at hok
+  · simp at hok
+  · rename_i h hh
+    obtain ⟨hv, ht, hp, hn⟩ := headerLoop_init _ _ hh
+    simp only at hok
+    split at hok
+    · -- no pluralize
+      rename_i hpl
+      left
+      simp only [Except.ok.injEq] at hok
+      refine ⟨hpl, ?_⟩
+      rw [← hok, hv, ht]; rfl
+    · rename_i pn pb hpl
+      right
+      split at hok
+      · simp at hok
+      · rename_i pk hpk
+        split at hok
+        · simp at hok
+        · rename_i k hk
+          simp only [Except.ok.injEq] at hok
+          refine ⟨pn, pb, k, pk.2, hpl, ?_, ?_, ?_⟩
+          · -- the count variable is the documented one
+            unfold countName
+            rw [hpl]
+            cases pn with
+            | some n =>
+              simp only at hpk ⊢
+              split at hpk
+              · simp only [Except.ok.injEq] at hpk; rw [← hpk] at hk; simpa using hk
+              · simp at hpk
+            | none =>
+              simp only [Except.ok.injEq] at hpk ⊢
+              rw [← hpk] at hk
+              rw [← hv]
+              rw [hp] at hk
+              cases hvars : h.vars with
+              | nil =>
+                rw [hvars] at hk
+                cases hs : (parseBlock b.singular).1 with
+                | nil => rw [hs] at hk; simp at hk
+                | cons n r => rw [hs] at hk; simpa using hk
+              | cons v r => rw [hvars] at hk; simpa using hk
+          · -- num_called_num only when the count variable is called num
+            intro hncn
+            cases pn with
+            | some n =>
+              simp only at hpk
+              split at hpk
+              · simp only [Except.ok.injEq] at hpk; rw [← hpk] at hk hncn
+                simp only [Option.some.injEq] at hk; subst hk; simpa using hncn
+              · simp at hpk
+            | none =>
+              simp only [Except.ok.injEq] at hpk
+              rw [← hpk] at hk hncn
+              cases hpk' : h.pluralKey with
+              | some k' =>
+                rw [hpk'] at hk hncn
+                simp only at hk hncn
+                have := hn hncn
+                rw [hpk'] at this; rw [hk] at this; simpa using this
+              | none =>
+                rw [hpk'] at hk hncn
+                cases hs : (parseBlock b.singular).1 with
+                | nil => rw [hs] at hk; simp at hk
+                | cons n r =>
+                  rw [hs] at hk hncn
+                  simp only [Option.some.injEq] at hk hncn; subst hk; simpa using hncn
+          · rw [← hok, hv, ht]; rfl
+
+
+/-- the symbols of a body after the trimming decision -/
+def TS (trimmed : Bool) (ss : List Sym) : List Sym := if trimmed = true then trimS ss else ss
+
+theorem refs_TS {trimmed : Bool} {ss : List Sym} {n : Text} (h : n ∈ refsS (TS trimmed ss)) : n ∈ refsS ss := by
+  unfold TS at h
+  split at h
+  · exact refsS_trimS h
+  · exact h
+
+theorem T_msg (trimmed : Bool) (B : Body) (hn : ∀ n ∈ (parseBlock B).1, NameOk n) :
+    (if trimmed = true then trimWhitespace (parseBlock B).2 else (parseBlock B).2) = msgS (TS trimmed (syms B)) := by
+  rw [← refsS_syms] at hn
+  unfold TS
+  split
+  · rw [← msgS_syms, trimWhitespace_msgS _ hn]
+  · rw [msgS_syms]
+
+def textOf (B : Body) : Text := subst (fun _ => []) B
+
+theorem mem_fill_no_refs (τ : Text → Text) (ss : List Sym) (h : refsS ss = []) (c : Char) :
+    c ∈ fill τ ss ↔ Sym.ch c ∈ ss := by
+  induction ss with
+  | nil => simp [fill]
+  | cons s r ih =>
+    cases s with
+    | ref n => simp [refsS, Sym.refs] at h
+    | ch d =>
+      have hr : refsS r = [] := by simpa [refsS, Sym.refs] using h
+      have := ih hr
+      simp only [fill, List.flatMap_cons, List.mem_append, List.mem_cons, List.not_mem_nil, or_false,
+        Sym.ch.injEq] at this ⊢
+      rw [this]
+
+theorem refsS_TS_nil {trimmed : Bool} {ss : List Sym} (h : refsS ss = []) : refsS (TS trimmed ss) = [] := by
+  cases hr : refsS (TS trimmed ss) with
+  | nil => rfl
+  | cons n r =>
+    have : n ∈ refsS ss := refs_TS (by rw [hr]; simp)
+    rw [h] at this; simp at this
+
+/-- one form (singular or plural body `B`) of a block, rendered the way `_make_node` arranged it -/
+theorem render_form (ns ae : Bool) (σ : Text → Val) (B : Body) (refsAll vars : List Text) (trimmed : Bool)
+    (ctx pk : Option Text) (ncn : Bool)
+    (hB : ∀ n ∈ (parseBlock B).1, n ∈ refsAll) (hnames : ∀ n ∈ refsAll, NameOk n)
+    (hncn : ncn = true → pk = some kwNum)
+    (hpct : ns = false → refsAll = [] → vars ≠ [] → '%' ∉ textOf B) :
+    (let M := if trimmed = true then trimWhitespace (parseBlock B).2 else (parseBlock B).2
+     let keys := keysOf vars refsAll
+     let X := if (!(!refsAll.isEmpty) && !ns) = true then undouble M else M
+     if ns = true then pyPercentFormat (lookupIn (newMap ae σ keys ctx pk ncn)) X
+     else if keys.isEmpty = true then .ok X
+     else pyPercentFormat (lookupIn (keys.map fun k => (k, (σ k).show ae))) X)
+      = .ok (fill (fun n => (σ n).show ae) (TS trimmed (syms B))) := by
+  have hBn : ∀ n ∈ (parseBlock B).1, NameOk n := fun n hn => hnames n (hB n hn)
+  have hM := T_msg trimmed B hBn
+  have hrn : ∀ n ∈ refsS (TS trimmed (syms B)), NameOk n := by
+    intro n hn; have := refs_TS hn; rw [refsS_syms] at this; exact hBn n this
+  have hrk : ∀ n ∈ refsS (TS trimmed (syms B)), n ∈ keysOf vars refsAll := by
+    intro n hn; have := refs_TS hn; rw [refsS_syms] at this; exact mem_keysOf (hB n this)
+  simp only
+  rw [hM]
+  cases ns with
+  | true =>
+    simp only [Bool.not_true, Bool.and_false, Bool.false_eq_true, if_false, if_true]
+    exact pyPercentFormat_msgS _ _ _ hrn (fun n hn => lookupIn_newMap ae σ _ ctx pk ncn hncn n (hrk n hn))
+  | false =>
+    simp only [Bool.false_eq_true, if_false, Bool.not_false, Bool.and_true, Bool.not_not]
+    by_cases hall : refsAll = []
+    · -- no variable referenced anywhere: statically un-doubled
+      subst hall
+      have hB0 : (parseBlock B).1 = [] := by
+        cases h : (parseBlock B).1 with
+        | nil => rfl
+        | cons n r => have := hB n (by rw [h]; simp); simp at this
+      have hr0 : refsS (TS trimmed (syms B)) = [] := refsS_TS_nil (by rw [refsS_syms]; exact hB0)
+      simp only [List.isEmpty_nil, if_true, keysOf_nil]
+      rw [undouble_msgS_no_refs (fun n => (σ n).show ae) _ hr0]
+      cases hv : vars.isEmpty with
+      | true => simp
+      | false =>
+        simp only [Bool.false_eq_true, if_false]
+        apply pyPercentFormat_no_pct
+        have hvne : vars ≠ [] := by intro e; rw [e] at hv; simp at hv
+        have hp := hpct rfl rfl hvne
+        rw [mem_fill_no_refs _ _ hr0]
+        intro hmem
+        apply hp
+        unfold textOf
+        rw [← fill_syms, mem_fill_no_refs _ _ (by rw [refsS_syms]; exact hB0)]
+        unfold TS at hmem
+        split at hmem
+        · rcases mem_trimG Sym.ws Sym.nl (Sym.ch ' ') hmem with h | h
+          · exact h
+          · simp at h
+        · exact hmem
+    · -- some variable is referenced: the dict is not empty and the message stays doubled
+      have hne : refsAll.isEmpty = false := by cases refsAll <;> simp_all
+      obtain ⟨n0, hn0⟩ : ∃ n, n ∈ refsAll := by
+        cases refsAll with
+        | nil => exact absurd rfl hall
+        | cons a r => exact ⟨a, by simp⟩
+      have hkne : (keysOf vars refsAll).isEmpty = false := by
+        cases hk : keysOf vars refsAll with
+        | nil => have := mem_keysOf (vars := vars) hn0; rw [hk] at this; simp at this
+        | cons a r => rfl
+      simp only [hne, hkne, Bool.false_eq_true, if_false]
+      exact pyPercentFormat_msgS _ _ _ hrn (fun n hn => lookupIn_map_mem _ (fun k => (σ k).show ae) n (hrk n hn))
+
+/-! ### oracle and extraction helpers -/
+
+theorem expected_eq (pt ae : Bool) (σ : Text → Val) (b : Block) :
+    expected pt ae σ b = fill (fun n => (σ n).show ae) (TS ((flag b.header).getD pt) (syms (chosen σ b))) := by
+  unfold expected TS trimS
+  split <;> rfl
+
+theorem toCall_recorded (n : Node) : n.toCall.recorded = n.recorded := by
+  have he : effective n.func.name = n.func.name := by cases n.func <;> decide
+  cases hc : n.ctx <;> cases hp : n.plural <;>
+    simp [Node.toCall, ECall.recorded, Node.recorded, leadingStrs, he, hc, hp]
+
+theorem trans_call_mem (cfg : Cfg) (nodes : List TNode) (calls : List ECall) (h : callsOf cfg nodes = .ok calls)
+    (b : Block) (hb : TNode.trans b ∈ nodes) : ∃ n, parseTrans cfg b = .ok n ∧ n.toCall ∈ calls := by
+  induction nodes generalizing calls with
+  | nil => simp at hb
+  | cons t r ih =>
+    cases t with
+    | data d =>
+      simp only [callsOf] at h
+      have hb' : TNode.trans b ∈ r := by simpa using hb
+      exact ih calls h hb'
+    | call c =>
+      simp only [callsOf] at h
+      split at h
+      · rename_i cs hcs
+        simp only [Except.ok.injEq] at h; subst h
+        have hb' : TNode.trans b ∈ r := by simpa using hb
+        obtain ⟨n, hn, hm⟩ := ih cs hcs hb'
+        exact ⟨n, hn, by simp [hm]⟩
+      · simp at h
+    | trans b' =>
+      simp only [callsOf] at h
+      split at h
+      · rename_i n cs hn hcs
+        simp only [Except.ok.injEq] at h; subst h
+        rcases List.mem_cons.mp hb with e | hb'
+        · simp only [TNode.trans.injEq] at e; subst e
+          exact ⟨n, hn, by simp⟩
+        · obtain ⟨m, hm1, hm2⟩ := ih cs hcs hb'
+          exact ⟨m, hm1, by simp [hm2]⟩
+      · simp at h
+      · simp at h
+
 end JinjaV.I18n
